@@ -229,7 +229,7 @@ func (x *Exec) builtin(st *State, fr *Frame, bi *ssa.Builtin, args []Val, in ssa
 		if a.K == KSlice {
 			return Val{K: KInt, T: sLen(a.T), Typ: types.Typ[types.Int]}
 		}
-		if a.K == KPtr && a.Ptr != nil && a.Ptr.ArrLen > 0 {
+		if a.K == KPtr && a.Ptr != nil && a.Ptr.IsArr {
 			return Val{K: KInt, T: fmt.Sprint(a.Ptr.ArrLen), Typ: types.Typ[types.Int]}
 		}
 		bail("len of %v", a.Typ)
